@@ -31,7 +31,8 @@ def srcProj (ps : List (Inst × Inst)) (t : Inst) : List Inst := ps.filterMap (f
 def tgtProj (ps : List (Inst × Inst)) (s : Inst) : List Inst := ps.filterMap (fun p => if p.1 = s then some p.2 else none)
 
 def toAssoc (kname : Nat → String) (a : Pyx.Meta.AssocSpec) : Assoc :=
-  ⟨a.rel, kname a.srcKind, kname a.tgtKind, a.srcPhrase, a.tgtPhrase, a.srcMany, a.tgtMany⟩
+  { rel := a.rel, src := kname a.srcKind, tgt := kname a.tgtKind, srcPhrase := a.srcPhrase, tgtPhrase := a.tgtPhrase,
+    srcMany := a.srcMany, tgtMany := a.tgtMany, srcKeys := a.srcKeys, tgtKeys := a.tgtKeys }
 
 /-- the Spec context of a mechanism schema: the classes `kinds` (no attributes: the store only), the associations -/
 def ctxOf (kname : Nat → String) (kinds : List Nat) (sch : MSchema) : Ctx :=
